@@ -943,6 +943,16 @@ impl Session {
     }
 }
 
+impl Drop for Session {
+    /// A session dropped with a transaction still open rolls it back, so its
+    /// uncommitted work never outlives it and the manager does not keep it active.
+    fn drop(&mut self) {
+        if self.current_tx.is_some() {
+            let _ = self.rollback();
+        }
+    }
+}
+
 #[cfg(test)]
 mod tests {
     use crate::database::GrafeoDB;
